@@ -219,3 +219,36 @@ package types
 //@ ufun wlNUMA(raw ref, k string) int64
 //@ ufun wlMem(raw ref) int64
 //@ ufun wlCPUReq(raw ref) float64
+
+//@ # ---------- what the plugin itself accepts as a valid node record (C04, C15) ----------
+//@ pred validCPU(n *NodeResourceInfo) = card(n.Capacity.CPUMap) >= 1
+//@        && forall c string :: c in n.Usage.CPUMap ==> c in n.Capacity.CPUMap && n.Capacity.CPUMap[c] >= 0 && n.Usage.CPUMap[c] <= n.Capacity.CPUMap[c]
+//@ pred validNUMA(n *NodeResourceInfo) = card(n.Capacity.NUMA) > 0 ==>
+//@        (forall c string :: c in n.Capacity.CPUMap ==> c in n.Capacity.NUMA && n.Capacity.NUMA[c] in n.Capacity.NUMAMemory)
+//@        && (forall m string :: m in n.Capacity.NUMAMemory ==> n.Capacity.NUMAMemory[m] >= 0 && 0 <= n.Usage.NUMAMemory[m] && n.Usage.NUMAMemory[m] <= n.Capacity.NUMAMemory[m])
+
+//@ func (*NodeResourceInfo) Validate
+//@   requires n != nil && (n.Capacity == nil || allocated(n.Capacity)) && (n.Usage == nil || (allocated(n.Usage) && n.Usage != n.Capacity))
+//@   modifies n
+//@   # a record is accepted only if usage stays within capacity on every core and (with NUMA) on every NUMA node
+//@   ensures[C04.validate-sound,C15] result == nil && old(n.Usage) != nil ==> old(n.Capacity) != nil
+//@        && old(card(n.Capacity.CPUMap) >= 1)
+//@        && old(forall c string :: c in n.Usage.CPUMap ==> c in n.Capacity.CPUMap && n.Capacity.CPUMap[c] >= 0 && n.Usage.CPUMap[c] <= n.Capacity.CPUMap[c])
+//@   ensures[C04.validate-numa,C15] result == nil && old(n.Usage) != nil && old(card(n.Capacity.NUMA) > 0) ==>
+//@        old((forall c string :: c in n.Capacity.CPUMap ==> c in n.Capacity.NUMA && n.Capacity.NUMA[c] in n.Capacity.NUMAMemory)
+//@        && (forall m string :: m in n.Capacity.NUMAMemory ==> n.Capacity.NUMAMemory[m] >= 0 && 0 <= n.Usage.NUMAMemory[m] && n.Usage.NUMAMemory[m] <= n.Capacity.NUMAMemory[m]))
+//@   loop 4:
+//@     modifies nothing
+//@     invariant n.Capacity != nil && n.Usage != nil && n.Capacity == old(n.Capacity) && (old(n.Usage) != nil ==> n.Usage == old(n.Usage))
+//@     invariant forall c string :: seen(c) ==> c in n.Capacity.CPUMap && n.Capacity.CPUMap[c] >= 0 && n.Usage.CPUMap[c] <= n.Capacity.CPUMap[c]
+//@   loop 5:
+//@     modifies nothing
+//@     invariant n.Capacity != nil && n.Usage != nil && n.Capacity == old(n.Capacity) && (old(n.Usage) != nil ==> n.Usage == old(n.Usage))
+//@     invariant forall c string :: c in n.Usage.CPUMap ==> c in n.Capacity.CPUMap && n.Capacity.CPUMap[c] >= 0 && n.Usage.CPUMap[c] <= n.Capacity.CPUMap[c]
+//@     invariant forall c string :: seen(c) ==> c in n.Capacity.NUMA && n.Capacity.NUMA[c] in n.Capacity.NUMAMemory
+//@   loop 6:
+//@     modifies nothing
+//@     invariant n.Capacity != nil && n.Usage != nil && n.Capacity == old(n.Capacity) && (old(n.Usage) != nil ==> n.Usage == old(n.Usage))
+//@     invariant forall c string :: c in n.Usage.CPUMap ==> c in n.Capacity.CPUMap && n.Capacity.CPUMap[c] >= 0 && n.Usage.CPUMap[c] <= n.Capacity.CPUMap[c]
+//@     invariant forall c string :: c in n.Capacity.CPUMap ==> c in n.Capacity.NUMA && n.Capacity.NUMA[c] in n.Capacity.NUMAMemory
+//@     invariant forall m string :: seen(m) ==> n.Capacity.NUMAMemory[m] >= 0 && 0 <= n.Usage.NUMAMemory[m] && n.Usage.NUMAMemory[m] <= n.Capacity.NUMAMemory[m]
